@@ -17,7 +17,7 @@ META = {
     'technique': 'fork-point enumeration by preemption-bounded schedule exploration of the real code under the controlled scheduler; deadlock decided from the scheduler\'s mutex model in the child',
     'text': 'Every schedule with <=1 (quick) / <=2 (thorough) preemptions of {thread 0: fork, child execs; thread 1: K wrapped calls} is executed for each output type, child fork depth 1 and 2 and K in {1,2}: '
             'the child must reach the real exec (recorder) and exit normally, the parent must not deadlock, its records must be whole and its registry empty at the end.'
-            " Also: children that become multithreaded, three- and four-thread parents, I/O-granular fork points, state-hashed campaigns without preemption bound, glibc's time-zone lock (tzset/localtime_r/strftime) modelled as a mutex held across a scheduling point, and sequential fork histories in which the application's own atfork child handler makes an exec call.",
+            " Also: children that become multithreaded, three- and four-thread parents, I/O-granular fork points, state-hashed campaigns without preemption bound, glibc's time-zone lock (tzset/localtime_r/strftime) modelled as a mutex held across a scheduling point, and sequential fork histories in which the application's own atfork child handler makes an exec call (handlers registered before the library's own - by an earlier constructor - or after them, with and without a nested fork from a prepare handler).",
     'note': 'The fork is taken at synchronisation points of the other thread (every lock/unlock/once of its call), which includes every window in which it holds the library mutex. '
             'Function-entry granularity is used in one campaign to place the fork inside lock-free stretches too.',
 }
@@ -183,17 +183,23 @@ def run(ck):
         hv = H.build_exec_harness('c10-hist-%s-asan' % ('ts' if ts else 'nots'), ts=ts)
         cfg = H.hx(b'[snoopy]\nmessage_format = "M %{cmdline}"\noutput = file:log\n')
         call = 'call execve %s [h61+h62] [] -1 2' % H.hx(b'/x')
-        for order in (['atforkexec', call], [call, 'atforkexec'], ['atforkexec'], ['atforkexec', call, call], ['atforkfork', call], [call, 'atforkfork'], ['atforkfork'],
-                      ['atforkprefork', 'atforkexec', call], ['atforkexec', 'atforkprefork', call], [call, 'atforkprefork', 'atforkexec'], ['atforkprefork', 'atforkfork', call]):
+        # 'early:<list>' = the application's handlers registered by a constructor that runs BEFORE the library's own (the library registers its
+        # handlers when it is loaded): only then does the application's child handler run before the library's child-side clean-up
+        early = [['early:' + e] + rest for e in ('exec', 'fork', 'prefork,exec', 'exec,prefork', 'prefork,fork', 'prefork') for rest in ([], [call])]
+        for order in [['atforkexec', call], [call, 'atforkexec'], ['atforkexec'], ['atforkexec', call, call], ['atforkfork', call], [call, 'atforkfork'], ['atforkfork'],
+                      ['atforkprefork', 'atforkexec', call], ['atforkexec', 'atforkprefork', call], [call, 'atforkprefork', 'atforkexec'], ['atforkprefork', 'atforkfork', call]] + early + \
+                     [['early:prefork', 'atforkexec'], ['early:exec', 'atforkprefork', call], ['early:prefork,exec', 'atforkprefork']]:
+            env_extra = {'VS_EARLY_ATFORK': order[0][6:]} if order[0].startswith('early:') else None
+            shown = [o.replace('early:', 'early:atfork').replace(',', '+atfork') if o.startswith('early:') else o for o in order]
+            has_prefork = any('prefork' in o for o in order if not o.startswith('call'))
+            has_caller = any(('exec' in o or 'atforkfork' in o or o.startswith('early:') and 'fork' in o.replace('prefork', '').split(':')[1]) for o in order if not o.startswith('call'))
             for depth in (1, 2):
-                script = ['sinks pipe', 'lean 1', 'cfg ' + cfg] + order + ['forkname ' + H.hx(b'kid')] * depth + [call, 'echo end']
+                script = ['sinks pipe', 'lean 1', 'cfg ' + cfg] + [o for o in order if not o.startswith('early:')] + ['forkname ' + H.hx(b'kid')] * depth + [call, 'echo end']
                 w = os.path.join(ck.workdir, 'forkhist-%d' % hist_n)
                 hist_n += 1
-                r = H.run_script(hv['h_exec'], w, '\n'.join(script), timeout=30)
-                name = 'atfork_child_handler_execs:%s:%s:fork_depth=%d' % ('ts' if ts else 'nots', '>'.join('call' if o.startswith('call') else o for o in order), depth)
+                r = H.run_script(hv['h_exec'], w, '\n'.join(script), timeout=30, env_extra=env_extra)
+                name = 'atfork_child_handler_execs:%s:%s:fork_depth=%d' % ('ts' if ts else 'nots', '>'.join('call' if o.startswith('call') else o for o in shown), depth)
                 handler_calls = [l for l in r['lines'] if 'atfork_child_call' in l]
-                if 'atforkprefork' in order and not any(o in order for o in ('atforkexec', 'atforkfork')):
-                    pass
                 ended = any(l.get('echo') == 'end' for l in r['lines'])
                 total += 1
                 outcomes.add((name, r['done'], len(handler_calls), ended))
@@ -201,7 +207,7 @@ def run(ck):
                 if not r['done'] or not ended:
                     bad.append('child_did_not_complete_its_exec_call')
                 # (with a helper forked from the prepare handler the child handlers run in the helper, too: at least one call per forked child of the history)
-                if (len(handler_calls) < depth if 'atforkprefork' in order else len(handler_calls) != depth) or any(h.get('reached_real_exec') != 1 for h in handler_calls):
+                if has_caller and ((len(handler_calls) < depth if has_prefork else len(handler_calls) != depth) or any(h.get('reached_real_exec') != 1 for h in handler_calls)):
                     bad.append('handler_call_did_not_reach_real_exec_once')
                 if r['san']:
                     bad.append('sanitizer')
